@@ -18,7 +18,7 @@ Definition touched (self other : pairs) (o : op) : list K :=
   | IOr a => arg_keys self other a
   | UpdateBad l _ | UpdateExtendBad l _ => map fst l
   | Clear => map fst self
-  | New _ _ | FromKeys _ _ | CopyOther _ =>
+  | New _ _ | FromKeys _ _ | CopyOther _ | CopyCyc _ _ =>
       map fst self ++ map fst (fst (spec_step self other o))
   | _ => []
   end.
@@ -125,6 +125,9 @@ Proof.
     rewrite (rk_all_in self) by (apply incl_appl, incl_refl).
     apply rk_all_in. apply incl_appr, incl_refl.
   - (* CopyOther *) unfold touched.
+    rewrite (rk_all_in self) by (apply incl_appl, incl_refl).
+    apply rk_all_in. apply incl_appr, incl_refl.
+  - (* CopyCyc *) unfold touched.
     rewrite (rk_all_in self) by (apply incl_appl, incl_refl).
     apply rk_all_in. apply incl_appr, incl_refl.
   - (* UpdateBad *) simpl. apply rk_replace_with, incl_refl.
